@@ -442,7 +442,7 @@ def run_subject(case, env, tmpdir, state, res, rnd):
                           k = "C07:" + key
                           if key == "outcome" and exc == "KeyboardInterrupt" and i < first_render_b and (case.get("frames", 0) > 1 or (case["api"] == "new" and case.get("n") != 1)):
                               k = "C07:ki-in-animation-prelude"
-                          res.violation(k, "%s API %s [%s] (" + bmode + "-buffered stream) %s; flush op %d/%d delivering %d of %d buffered chars" % (case["api"], case.get("style") or case.get("kind"), env.persona_name, msg, i, len(ops_b), p, dlen), dict(case, fault=[i, p, exc], buffered=bmode))
+                          res.violation(k, ("%s API %s [%s] (" + bmode + "-buffered stream) %s; flush op %d/%d delivering %d of %d buffered chars") % (case["api"], case.get("style") or case.get("kind"), env.persona_name, msg, i, len(ops_b), p, dlen), dict(case, fault=[i, p, exc], buffered=bmode))
               if res.too_many():
                   return
     res.sample(dict(case, operations=len(ops), cleanup_ops=sum(1 for o in ops if o[1])))
